@@ -786,10 +786,10 @@ def run(ctx):
         rng = ctx.rng
         measured_coverage(ctx, lambda: (suite_evaluate(ctx, [dict(c) for c in CORPUS], 'evaluate_corpus'),
                                         suite_gating(ctx)))
-        suite_evaluate(ctx, [gen_case(rng) for _ in range(ctx.n(2500, 30000))], 'evaluate')
-        suite_queries(ctx, [dict(c) for c in CORPUS] + [gen_case(rng) for _ in range(ctx.n(500, 6000))])
-        suite_cascade(ctx, [dict(c) for c in CORPUS] + [gen_case(rng) for _ in range(ctx.n(400, 5000))])
-        suite_delete_failure(ctx, [dict(c) for c in CORPUS] + [gen_case(rng) for _ in range(ctx.n(150, 1500))])
+        suite_evaluate(ctx, [gen_case(rng) for _ in range(ctx.n(2500, 20000))], 'evaluate')
+        suite_queries(ctx, [dict(c) for c in CORPUS] + [gen_case(rng) for _ in range(ctx.n(500, 4000))])
+        suite_cascade(ctx, [dict(c) for c in CORPUS] + [gen_case(rng) for _ in range(ctx.n(400, 3000))])
+        suite_delete_failure(ctx, [dict(c) for c in CORPUS] + [gen_case(rng) for _ in range(ctx.n(150, 1000))])
         ev = ctx.cov['suites'].get('evaluate', {})
         if ev.get('F6_unset_age_raises'):
             ctx.notes.append('observation F6: older_than unset -> every evaluation raises TypeError (timedelta(minutes=None)) before any '
